@@ -1,3 +1,5 @@
+//go:build verif_all || verif_c08 || verif_c10 || verif_c16 || verif_c19 || verif_c20
+
 package report
 
 // Injected by the /verif overlay (never committed to the repository).
